@@ -489,8 +489,15 @@ def run(tier, replay):
         h = rng.choice(heads)
         e = next(i for i in range(h, len(lines)) if _re.match(r"END (SUB|FUNCTION)", lines[i]))
         block = lines[h:e + 1]
-        for variant in ("same", "more-params"):
+        for variant in ("same", "more-params", "other-kind"):
             blk = list(block)
+            if variant == "other-kind":
+                # the same name as a procedure of the other kind (a SUB where there is a FUNCTION, and the other way round)
+                m = _re.match(r"(SUB|FUNCTION) ([A-Za-z0-9.]+)[%&!#$]?", blk[0])
+                if m.group(1) == "SUB":
+                    blk = ["FUNCTION %s%%" % m.group(2), "  %s%% = 1" % m.group(2), "END FUNCTION"]
+                else:
+                    blk = ["SUB %s" % m.group(2), "END SUB"]
             if variant == "more-params":
                 m = _re.match(r"((?:SUB|FUNCTION) [A-Za-z0-9.]+[%&!#$]?)(\((.*)\))?(.*)$", blk[0])
                 blk[0] = m.group(1) + "(" + ((m.group(3) + ", ") if m.group(3) else "") + "ZZ9%)" + m.group(4)
